@@ -324,6 +324,11 @@ func vGenPath(t *rapid.T, segs []string, maxSeg int, label string) string {
 			}
 		}
 	}
+	// one path in 15 has an empty segment: "a//b", "a/" or "/a" (the separator splits; nothing says a segment has letters)
+	if rapid.IntRange(0, 14).Draw(t, label+".empty") == 0 {
+		k := rapid.IntRange(0, n).Draw(t, label+".emptyat")
+		parts = append(parts[:k], append([]string{""}, parts[k:]...)...)
+	}
 	return strings.Join(parts, "/")
 }
 
@@ -814,6 +819,10 @@ func vFmtDay(day int, layout string) string {
 		return fmt.Sprintf("%04d/%02d/%02d", y, m, d)
 	case "2006-01-02":
 		return fmt.Sprintf("%04d-%02d-%02d", y, m, d)
+	case "2006/01/02 %": // a literal percent sign in the layout
+		return fmt.Sprintf("%04d/%02d/%02d %%", y, m, d)
+	case "%d 2006-01-02 %s":
+		return fmt.Sprintf("%%d %04d-%02d-%02d %%s", y, m, d)
 	case "2006/02/01": // year/day/month: a text that is also well-formed in the default layout, with another meaning
 		return fmt.Sprintf("%04d/%02d/%02d", y, d, m)
 	case "02.01.2006":
